@@ -4,10 +4,12 @@ import (
 	"encoding/json"
 	"fmt"
 	"os"
+	"runtime/debug"
 	"time"
 )
 
 func main() {
+	debug.SetGCPercent(400)
 	if len(os.Args) < 2 {
 		fmt.Fprintln(os.Stderr, "usage: panasim <smoke|check|worker|replay|selftest> ...")
 		os.Exit(2)
